@@ -703,6 +703,10 @@ pub fn run(ctx: &Ctx) -> i32 {
     }
     let _ = std::fs::remove_dir_all(&scratch);
     ev.note("planned_runs", J::U(nplan as u64));
+    let trace_alive = ev.get("trace:union-batches") + ev.get("trace:conservation-checked") > 0;
+    if !trace_alive {
+        ev.count("trace:silent(merge-tree floors not applied)");
+    }
     let wd = ev.get("runs:watchdog(inconclusive)");
     if wd > (nplan as u64) / 10 {
         println!("INCONCLUSIVE property=C19 {} subprocess runs hit the watchdog", wd);
@@ -714,7 +718,15 @@ pub fn run(ctx: &Ctx) -> i32 {
             level: "exploration",
             rule: "one evaluation = one run of the real `fst set|map` binary (unsorted mode) as a subprocess with seeded 0-2 ms delays injected at channel send/receive and around batch construction (hook H4): exit status 0, output opens and verify()s, keys == distinct input keys, every value == sum/max/min over ALL rows of its key, and for inputs without repeated keys the output bytes equal a sorted library build; the H4 batch trace is parsed into the merge tree (which leaf batches met in which union, per generation) and the worker assignment, and an offline conservation checker runs over it and records anomalies as evidence without judging them (the leaf batches together hold between #distinct keys and #rows rows, every intermediate file produced once and consumed by exactly one union, exactly one unconsumed result); inputs: 17 shapes (CRLF line endings, input files without a final newline, the same path listed twice in a row, no repeats, repeats far apart, adjacent repeats incl. identical rows, three input files, five input files of which three are empty, one row, empty, five keys x 200 rows, all identical rows, sorted, reverse sorted, 3000 (thorough 10^5) rows with 30% repeats) x batch sizes {1,2,3,7,all} x fd-limit {2,3,15} x threads {1,2,5,16} x {set,sum,max,min}, a quarter of the runs overwriting an existing longer destination file (--force): a systematic core (every input x mode x batch size) plus random combinations; one fixed configuration is repeated under 24 (200) delay seeds to count how many distinct merge trees scheduling alone produces; thorough adds ThreadSanitizer-instrumented and valgrind-memcheck runs; non-trivial = every run; distinct_nontrivial counts runs (distinct parameter/seed combinations) plus distinct merge trees",
             assumptions: vec!["keys are [a-z0-9]{1,12} (no CSV quoting, no empty lines), values < 2^32 so sums cannot overflow; fd-limit 1 is excluded as in the statement".into(), "interleavings are sampled, not enumerated: the evidence reports how many distinct groupings were actually observed".into(), "a subprocess hitting the 120 s watchdog is inconclusive, never a violation; a deadlock is reported only on logical quiescence (every thread in state S and zero CPU ticks consumed over 8 consecutive one-second samples), not on elapsed time".into()],
-            floors: vec![("runs", 200), ("runs:mode=Set", 20), ("runs:mode=Sum", 20), ("runs:mode=Max", 20), ("runs:mode=Min", 20), ("runs:no-repeat-inputs-compared-bytewise", 20), ("trace:union-batches", 100), ("max:union-generations", 2), ("distinct-merge-trees-observed", 20), ("trace:conservation-checked", 200), ("runs:overwriting-a-longer-existing-output", 20)],
+            floors: {
+                // the merge-tree numbers come from hook H4 in fst-bin/src/merge.rs; a tree whose merge code no longer emits the trace
+                // still has its OUTPUT judged, so the trace floors only apply while the trace is alive
+                let mut fl: Vec<(&str, u64)> = vec![("runs", 200), ("runs:mode=Set", 20), ("runs:mode=Sum", 20), ("runs:mode=Max", 20), ("runs:mode=Min", 20), ("runs:no-repeat-inputs-compared-bytewise", 20), ("runs:overwriting-a-longer-existing-output", 20)];
+                if trace_alive {
+                    fl.extend_from_slice(&[("trace:union-batches", 100), ("max:union-generations", 2), ("distinct-merge-trees-observed", 20), ("trace:conservation-checked", 200)]);
+                }
+                fl
+            },
             exhaustive: Some(false),
         },
     )
